@@ -107,6 +107,8 @@ def _ite(c, a, b):
 
 
 def cxx_max(a, b):
+    if isinstance(a, Inf) or isinstance(b, Inf):
+        return INF
     if is_sym(a) or is_sym(b):
         ta, tb = z3num(a), z3num(b)
         if z3.is_int(ta) != z3.is_int(tb):
@@ -117,6 +119,10 @@ def cxx_max(a, b):
 
 
 def cxx_min(a, b):
+    if isinstance(a, Inf):
+        return b
+    if isinstance(b, Inf):
+        return a
     if is_sym(a) or is_sym(b):
         ta, tb = z3num(a), z3num(b)
         if z3.is_int(ta) != z3.is_int(tb):
@@ -133,7 +139,38 @@ def cxx_idiv(a, b):
 
 
 class Inf:
-    """+infinity (std::numeric_limits<double>::infinity()): only compared for equality by the sources"""
+    """+infinity (IEEE): the operations the sources apply to an infinite cutoff, case-split explicitly"""
+
+    def __eq__(self, o):
+        return isinstance(o, Inf)
+
+    def __ne__(self, o):
+        return not isinstance(o, Inf)
+
+    __hash__ = None
+
+    def __mul__(self, o):
+        if isinstance(o, Inf):
+            return self
+        raise Unsupported("inf * x")
+
+    def __rtruediv__(self, o):
+        return 0.0  # finite / inf
+
+    def __truediv__(self, o):
+        raise Unsupported("inf / x")
+
+    def __le__(self, o):
+        return isinstance(o, Inf)
+
+    def __lt__(self, o):
+        return False
+
+    def __ge__(self, o):
+        return True
+
+    def __gt__(self, o):
+        return not isinstance(o, Inf)
 
 
 INF = Inf()
@@ -219,11 +256,15 @@ def cxx_default(t):
 
 
 def cxx_find(m, k):
-    return ("find", id(m), k if not isinstance(k, SR) else k.t.sexpr(), mkbool(z3.BoolVal(True)) if False else None, m, k)
+    h = getattr(m, "_find", None)
+    if h is not None:
+        return h(k)
+    raise Unsupported("find on %r" % type(m))
 
 
 def cxx_end(m):
-    return ("end", id(m))
+    from contracts.cxx_model import _End
+    return _End(m)
 
 
 RUNTIME = {k: v for k, v in globals().items() if k.startswith("cxx_")}
